@@ -1,8 +1,6 @@
 package main
 
 import (
-	"fmt"
-	"math/big"
 	"time"
 
 	"0chain.net/core/config"
@@ -13,48 +11,6 @@ import (
 )
 
 func init() { checks["C01"] = c01 }
-
-// supplyMonitor: after every transition the sum over all account leaves equals MaxTokenSupply.
-func supplyMonitor(s *chainsim.Step, v func(key, what string)) {
-	sum := new(big.Int)
-	uncl := 0
-	for _, l := range s.Post.Leaves {
-		if world.Tap.IsAccount(l.Path) {
-			st, ok := chainsim.DecodeAccount(l.Value)
-			if !ok {
-				v("C01:account-leaf-undecodable", "account leaf "+l.Path+" does not decode")
-				continue
-			}
-			sum.Add(sum, new(big.Int).SetUint64(uint64(st.Balance)))
-		} else if world.Tap.KeyOf(l.Path) == "" {
-			uncl++
-		}
-	}
-	if uncl > 0 {
-		v("C01:harness:unclassified-leaf", fmt.Sprintf("%d leaves are neither accounts nor known contract nodes", uncl))
-	}
-	if sum.Cmp(new(big.Int).SetUint64(config.MaxTokenSupply)) != 0 {
-		kind := "applied"
-		if s.Err != nil {
-			kind = "rejected"
-		}
-		v(fmt.Sprintf("C01:supply-changed:%s:%s", kind, actionClass(s.Action.Name)),
-			fmt.Sprintf("sum of all account balances = %s, MaxTokenSupply = %d", sum.String(), uint64(config.MaxTokenSupply)))
-	}
-	if s.Err != nil && len(s.Diff) > 0 {
-		v("C01:rejected-txn-changed-state:"+actionClass(s.Action.Name), fmt.Sprintf("%d leaves changed by a rejected transaction", len(s.Diff)))
-	}
-}
-
-// actionClass strips the arguments from an action name.
-func actionClass(n string) string {
-	for i, c := range n {
-		if c == '(' {
-			return n[:i]
-		}
-	}
-	return n
-}
 
 func c01(run *ev.Run) {
 	w := world.New(world.Options{})
